@@ -195,7 +195,7 @@ fn rand_text(rng: &mut Rng) -> String {
     s
 }
 
-fn main() {
+pub fn main() {
     std::panic::set_hook(Box::new(|_| {}));
     let args: Vec<String> = std::env::args().collect();
     let args = &args[1..];
